@@ -7,7 +7,9 @@ import (
 	"os"
 	"os/exec"
 	"path/filepath"
+	"sort"
 	"strings"
+	"sync/atomic"
 	"time"
 
 	"go4.org/jsonconfig"
@@ -280,6 +282,141 @@ func probeMergeLostErr() string {
 	return fmt.Sprintf("mergelost failed-source-enumerations-answered-ok=%d/%d", lost, rounds)
 }
 
+// mechanism "temp file removed on any receive error" (files/receive.go:64-70): a failure at every
+// step of files.ReceiveBlob
+func probeFilesRecv() string {
+	dir, err := os.MkdirTemp("", "c13files-")
+	if err != nil {
+		return "bad-op"
+	}
+	defer os.RemoveAll(dir)
+	vfs := &faultVFS{VFS: files.OSFS()}
+	sto := files.NewStorage(vfs, dir)
+	refs, vals := mkBlobs(8, 64)
+	var res []string
+	for i, op := range []string{"mkdir", "tempfile", "write", "sync", "close", "lstat", "rename"} {
+		vfs.mu.Lock()
+		vfs.failOp = op
+		vfs.mu.Unlock()
+		_, rerr := sto.ReceiveBlob(ctx, refs[i], bytes.NewReader(vals[i]))
+		left := 0
+		filepath.Walk(dir, func(p string, fi os.FileInfo, err error) error {
+			if err == nil && !fi.IsDir() {
+				left++
+			}
+			return nil
+		})
+		_, fcls := stores.Fetch(ctx, sto, refs[i])
+		l, _ := stores.Enumerate(ctx, sto, "", 100)
+		retry := recvOK(sto, refs[i], vals[i])
+		after := fetchClass(sto, refs[i], vals[i])
+		sto.RemoveBlobs(ctx, refs[i:i+1])
+		res = append(res, fmt.Sprintf("%s:%s/files=%d/fetch=%s/listed=%d/retry=%s/%s", op, stores.ErrClass(rerr), left, fcls, len(l), retry, after))
+	}
+	return "filesrecv " + strings.Join(res, " ")
+}
+
+// mechanism "append undone (seek+truncate) when the index write fails" without a roll-over
+func probeDiskpackedUndo() string {
+	dir, err := os.MkdirTemp("", "c13dp-")
+	if err != nil {
+		return "bad-op"
+	}
+	defer os.RemoveAll(dir)
+	s, plan, _, err := newDiskpacked(dir, 0)
+	if err != nil {
+		return "bad-op " + err.Error()
+	}
+	refs, vals := mkBlobs(3, 70)
+	r0 := recvOK(s, refs[0], vals[0])
+	size := func() int64 {
+		fi, err := os.Stat(filepath.Join(dir, "pack-00000.blobs"))
+		if err != nil {
+			return -1
+		}
+		return fi.Size()
+	}
+	before := size()
+	plan.failNext("Set", 'b')
+	r1 := recvOK(s, refs[1], vals[1])
+	undone := size() == before
+	f1 := fetchClass(s, refs[1], vals[1])
+	l, _ := stores.Enumerate(ctx, s, "", 100)
+	r1b := recvOK(s, refs[1], vals[1])
+	r2 := recvOK(s, refs[2], vals[2])
+	fetch := ""
+	for i := 0; i < 3; i++ {
+		fetch += fetchClass(s, refs[i], vals[i]) + ","
+	}
+	if c, ok := s.(interface{ Close() error }); ok {
+		c.Close()
+	}
+	rconf, _ := newFaultKVConf()
+	reindex := stores.ErrClass(diskpacked.Reindex(ctx, dir, true, jsonconfig.Obj(rconf)))
+	return fmt.Sprintf("dpundo recv=%s faulted-recv=%s truncated-back=%v fetch=%s listed=%d retry=%s next=%s fetch-all=%s reindex=%s",
+		r0, r1, undone, f1, len(l), r1b, r2, fetch, reindex)
+}
+
+// burstSrc sends its refs and then fails: an enumeration that breaks off in the middle
+type burstSrc struct {
+	refs []blob.SizedRef
+	fail bool
+}
+
+func (b *burstSrc) EnumerateBlobs(c context.Context, dest chan<- blob.SizedRef, after string, limit int) error {
+	defer close(dest)
+	n := 0
+	for _, sb := range b.refs {
+		if sb.Ref.String() <= after {
+			continue
+		}
+		if n == limit {
+			return nil
+		}
+		dest <- sb
+		n++
+	}
+	if b.fail && n > 0 {
+		return errInjected
+	}
+	return nil
+}
+
+// mechanism "enumeration helper never returns while its callback runs" (enumerate.go:34-67)
+func probeEnumAll() string {
+	refs, _ := mkBlobs(5, 5)
+	var sbs []blob.SizedRef
+	for _, r := range refs {
+		sbs = append(sbs, blob.SizedRef{Ref: r, Size: 5})
+	}
+	sort.Slice(sbs, func(i, j int) bool { return sbs[i].Ref.String() < sbs[j].Ref.String() })
+	var inFn, calls, lateCalls atomic.Int32
+	var returned atomic.Bool
+	fn := func(blob.SizedRef) error {
+		if returned.Load() {
+			lateCalls.Add(1)
+		}
+		inFn.Store(1)
+		calls.Add(1)
+		time.Sleep(15 * time.Millisecond)
+		inFn.Store(0)
+		return nil
+	}
+	out := watchdog(opTimeout, func() string {
+		err := blobserver.EnumerateAll(ctx, &burstSrc{refs: sbs, fail: true}, fn)
+		running := inFn.Load()
+		returned.Store(true)
+		return fmt.Sprintf("%s/callback-running-at-return=%d", stores.ErrClass(err), running)
+	})
+	time.Sleep(150 * time.Millisecond)
+	healthy := watchdog(opTimeout, func() string {
+		n := 0
+		err := blobserver.EnumerateAll(ctx, &burstSrc{refs: sbs}, func(blob.SizedRef) error { n++; return nil })
+		return fmt.Sprintf("%s/%d", stores.ErrClass(err), n)
+	})
+	return fmt.Sprintf("enumall faulted=%s callbacks-after-return=%d healthy=%s", out, lateCalls.Load(), healthy)
+}
+
 func probeOp(w []string) string {
 	if len(w) < 2 {
 		return "bad-op"
@@ -302,6 +439,12 @@ func probeOp(w []string) string {
 		return probeDiskpackedRemove()
 	case "mergelost":
 		return probeMergeLostErr()
+	case "filesrecv":
+		return probeFilesRecv()
+	case "dpundo":
+		return probeDiskpackedUndo()
+	case "enumall":
+		return probeEnumAll()
 	}
 	return "bad-op"
 }
